@@ -16,11 +16,11 @@ if os.path.exists(res):
     det = sum("DETECTED" in r for r in rows)
     out.append(f"\n{det} of {len(rows)} (mutant, property) pairs detected on two consecutive runs.\n")
 out.append("\n#### Changes written by independent sub-agents (`seeded/<ID>-<X>/`, confirmed and run by `seeded/verify.py`)\n")
-out.append("A/B, E, F, J and K: the author saw only the property text and a scratch worktree (E also the earlier notes). C/D, G, H "
+out.append("A/B, E, F, J, K and L: the author saw only the property text and a scratch worktree (E also the earlier notes). C/D, G, H "
            "and I (adversarial rounds): the author was additionally told which bounds the checks enumerate and asked for "
            "changes outside them. A change that was missed at first has a second record, `meta_before_strengthening.json`, "
            "next to `meta.json`; `meta_final.json` is the regression run of every change of rounds A-I against the final "
-           "checks (rounds J and K were written afterwards and run against the same checks).\n\n")
+           "checks (rounds J, K and L were written afterwards and run against the same checks).\n\n")
 out.append("| change | confirmed (49 tests pass, demo fails with / passes without) | detected by | before strengthening | final regression | signatures | what it needs (from notes.md) |\n|---|---|---|---|---|---|---|\n")
 for d in sorted(glob.glob(os.path.join(V, "seeded", "C*-*"))):
     mp = os.path.join(d, "meta.json")
